@@ -87,6 +87,8 @@ static SIDE: Mutex<Option<Arc<RollingFileAppender>>> = Mutex::new(None);
 static SIDE_TABLE: Mutex<Vec<Vec<u8>>> = Mutex::new(Vec::new());
 static SIDE_FIRE: AtomicUsize = AtomicUsize::new(0);
 static SIDE_RESULT: AtomicUsize = AtomicUsize::new(0); // 0 not fired, 1 fired + Ok, 2 fired + Err
+/// op 11: the encoder writes the record's chunks and then returns Err (a record that cannot be rendered to its end)
+static ENC_FAIL: std::sync::atomic::AtomicBool = std::sync::atomic::AtomicBool::new(false);
 
 #[derive(Debug)]
 struct SideEncoder;
@@ -178,6 +180,9 @@ impl Encode for ChunkEncoder {
         side_fire(1);
         for ch in &self.table[id] {
             w.write_all(ch)?;
+        }
+        if ENC_FAIL.swap(false, Ordering::SeqCst) {
+            anyhow::bail!("scripted encoder failure");
         }
         Ok(())
     }
@@ -480,7 +485,7 @@ pub fn run(case: &Val) -> Val {
     for o in c[4].l() {
         let o = o.l();
         match o[0].n() {
-            0 | 5 | 7 | 10 => table.push(chunks_of(&o[1])),
+            0 | 5 | 7 | 10 | 11 => table.push(chunks_of(&o[1])),
             2 => {
                 for th in o[1].l() {
                     for r in th.l() {
@@ -540,6 +545,18 @@ pub fn run(case: &Val) -> Val {
                     None => false,
                 };
                 ctx.fail.store(false, Ordering::SeqCst);
+                next_id += 1;
+                if !ok {
+                    errors += 1;
+                }
+            }
+            11 => {
+                ENC_FAIL.store(true, Ordering::SeqCst);
+                let ok = match &app {
+                    Some(a) => append_id(a, next_id),
+                    None => false,
+                };
+                ENC_FAIL.store(false, Ordering::SeqCst);
                 next_id += 1;
                 if !ok {
                     errors += 1;
